@@ -18,7 +18,8 @@
 (*                filt    its own "filtering enabled",                     *)
 (*                svc     "inherit" | "none" | "active" | "paused"],       *)
 (*       aaaaOff BOOLEAN  AAAA resolving disabled (C02: IPv6 hints),       *)
-(*       cache   BOOLEAN  the proxy's response cache is on]                *)
+(*       cache   BOOLEAN  the proxy's response cache is on,                *)
+(*       cust    1 | 2    which custom blocking addresses are configured]  *)
 (* req  [name, qtype \in {"A","AAAA","HTTPS","TXT"}, client \in {c1,c2}]   *)
 (* c2 is never a persistent client.                                        *)
 (*                                                                         *)
@@ -37,13 +38,16 @@ CONSTANT SvcDomains     \* registrable domains blocked by the configured service
 \*   "empty"  NOERROR without answer records (NODATA with or without SOA)
 \*   "ip"     NOERROR with address records of the asked type carrying exactly
 \*            the address tokens a ("null4"/"null6" = 0.0.0.0 / ::,
-\*            "cust4"/"cust6" = the configured custom addresses,
+\*            "cust4"/"cust6" (or "cust4b"/"cust6b") = the configured custom addresses,
 \*            "r1","r2","r6" = addresses written in hosts-style lines)
 Cls(c, a) == [c |-> c, a |-> a]
 Up == Cls("up", {})
 
 NullTok(qt) == IF qt = "AAAA" THEN "null6" ELSE "null4"
-CustTok(qt) == IF qt = "AAAA" THEN "cust6" ELSE "cust4"
+\* cfg.cust \in {1, 2} says WHICH pair of custom blocking addresses is configured
+\* (the configuration space of custom_ip includes the addresses themselves).
+CustTok(cu, qt) == IF cu = 1 THEN (IF qt = "AAAA" THEN "cust6" ELSE "cust4")
+                   ELSE (IF qt = "AAAA" THEN "cust6b" ELSE "cust4b")
 
 \* The synthetic response of a blocking mode -- as a SET of admissible
 \* classes, because the statement does not pin everything:
@@ -52,12 +56,12 @@ CustTok(qt) == IF qt = "AAAA" THEN "cust6" ELSE "cust4"
 \*    has an address of the asked family: null address or empty answer;
 \*  * for other query types the statement says "synthetic": NODATA, empty
 \*    NOERROR or the mode's rcode.
-ModeResponse(mode, qt, ips, hosts) ==
+ModeResponse(mode, cu, qt, ips, hosts) ==
     IF qt \in {"A", "AAAA"}
     THEN CASE mode = "refused"   -> {Cls("ref", {})}
            [] mode = "nxdomain"  -> {Cls("nx", {})}
            [] mode = "null_ip"   -> {Cls("ip", {NullTok(qt)})}
-           [] mode = "custom_ip" -> {Cls("ip", {CustTok(qt)})}
+           [] mode = "custom_ip" -> {Cls("ip", {CustTok(cu, qt)})}
            [] mode = "default"   ->
                 IF ips # {} THEN {Cls("ip", ips)}
                 ELSE IF hosts THEN {Cls("ip", {NullTok(qt)}), Cls("empty", {})}
@@ -175,7 +179,7 @@ Step(cfg, req, p, ups) ==
                    IF m.why \in {"B", "S"}
                    THEN {[p EXCEPT !.stage = "upstream", !.set = TRUE, !.local = TRUE, !.cls = c,
                                    !.why = m.why, !.ips = m.ips, !.hosts = m.hosts]
-                          : c \in ModeResponse(cfg.mode, req.qtype, m.ips, m.hosts)}
+                          : c \in ModeResponse(cfg.mode, cfg.cust, req.qtype, m.ips, m.hosts)}
                    ELSE {[p EXCEPT !.stage = "upstream", !.why = m.why]}
                  : m \in CheckHost(cfg, req)}
       [] p.stage = "upstream" ->        \* processUpstream: only without a response
@@ -197,7 +201,7 @@ Step(cfg, req, p, ups) ==
                                  /\ \A j \in 1..(k - 1) : ~RRBlocked(cfg, req, p.ans[j])
                           hf == RRHostsFlag(cfg, req, p.ans[i])
                       IN {[p EXCEPT !.stage = "log", !.local = TRUE, !.cls = c, !.why = "R", !.hosts = hf]
-                           : c \in ModeResponse(cfg.mode, req.qtype, {}, hf)}
+                           : c \in ModeResponse(cfg.mode, cfg.cust, req.qtype, {}, hf)}
                  ELSE {[p EXCEPT !.stage = "log"]}
       [] p.stage = "log" ->             \* query log / statistics (C08)
             {[p EXCEPT !.stage = "done"]}
@@ -272,7 +276,7 @@ C01BlockedAnswerIsSynthetic(cfg, req, os) ==
     \A o \in os : IsBlockedOutcome(o) =>
         /\ o.c # "up"
         /\ \E ips \in SUBSET {"null4", "r1", "r2", "r6"}, h \in BOOLEAN :
-               Cls(o.c, o.a) \in ModeResponse(cfg.mode, req.qtype, ips, h)
+               Cls(o.c, o.a) \in ModeResponse(cfg.mode, cfg.cust, req.qtype, ips, h)
 C01StatementBlocks(cfg, req, os) ==
     (EffProt(cfg) /\ EffFilt(cfg, req) /\ StmtBlocked(cfg, req)) => \A o \in os : IsBlockedOutcome(o)
 C01AllowedOrUnmatchedForwarded(cfg, req, os) ==
@@ -306,7 +310,7 @@ C02BadRecordAnywhereBlocks(cfg, req, ua, os) ==
     \A i \in DOMAIN ua :
         (C02Forwarded(os) /\ C02Applies(cfg, req) /\ C02BadAt(cfg, req, ua, i)) =>
             \A o \in os : /\ o.why = "R" /\ o.c # "up"
-                          /\ \E h \in BOOLEAN : Cls(o.c, o.a) \in ModeResponse(cfg.mode, req.qtype, {}, h)
+                          /\ \E h \in BOOLEAN : Cls(o.c, o.a) \in ModeResponse(cfg.mode, cfg.cust, req.qtype, {}, h)
 C02NoMatchDeliveredUnchanged(cfg, req, ua, os) ==
     (C02Forwarded(os) /\ C02Applies(cfg, req) /\ ~\E i \in DOMAIN ua : C02BadAt(cfg, req, ua, i)) =>
         \A o \in os : o.c = "up" /\ o.why = "N"
